@@ -47,9 +47,13 @@ SSE_RECORDS = {
     "N": b"data:n\nid:8\n\n",  # no space after the colon (legal SSE framing)
     "P": b"data:\ndata: p\n\n",  # first data line empty: the payload starts with a newline
     "Q": "data: q\ufeffr\n\n".encode(),  # U+FEFF inside a payload (only a BOM at the very start of a stream is not data)
+    "R": b"event: ping\n\n",                  # a block without data (heartbeat): whatever it yields, it must not leak into the next event
+    "S": b"retry: 3000\nid: 9\n\n",
+    "T": b"data: t1\n: note\ndata: t2\n\n",  # a comment line in the middle of a block is not an event boundary
+    "U": b"event: u\n: note\ndata: v\n\n",
     "H": b"data: z",  # final unterminated event (last position only)
 }
-SSE_CORE = "ABCFIKNH"  # quick: triples over these, singles and pairs over the whole alphabet
+SSE_CORE = "ABCFIKNRTH"  # quick: triples over these, singles and pairs over the whole alphabet
 ND_RECORDS = {
     "a": b'{"a":1}\n',
     "b": '{"b":"é名"}\r\n'.encode(),
